@@ -333,7 +333,6 @@ def oracle(case, recs):
                 sh.dead.add(a[1])
         return pos
 
-    clock = 0
     for i, (op, (ob, info)) in enumerate(zip(case["ops"], recs)):
         k = op[0]
         before, after = info["before"], info["after"]
@@ -508,15 +507,15 @@ def oracle(case, recs):
             if n >= 1:
                 if info["peek"] is None:
                     if sh.live() and info["n_events"]:
-                        fail(f"C14/EventList/peak_ahead/raised-on-non-empty-list", i, "peak_ahead raised IndexError although events are pending")
+                        fail("C14/EventList/peak_ahead/raised-on-non-empty-list", i, "peak_ahead raised IndexError although events are pending")
                 else:
                     if any(info["peek_cancelled"]):
-                        fail(f"C14/EventList/peak_ahead/shows-cancelled-event", i, f"peak_ahead({n}) returned a cancelled event")
+                        fail("C14/EventList/peak_ahead/shows-cancelled-event", i, f"peak_ahead({n}) returned a cancelled event")
                         break
                     exp1 = [[e["tag"], e["time"], e["prio"]] for e in sh.order("seq")[:n]]
                     exp2 = [[e["tag"], e["time"], e["prio"]] for e in sh.order("seq2")[:n]]
                     if info["peek"] != exp1 and info["peek"] != exp2:
-                        fail(f"C14/EventList/peak_ahead/not-in-execution-order", i,
+                        fail("C14/EventList/peak_ahead/not-in-execution-order", i,
                              f"peak_ahead({n}) = {info['peek']} (tag, time*8, priority); the live events in the order they will run are {exp1}")
                         break
         # after every op: nothing but the call may have changed the state; the pending live events are those scheduled
@@ -571,8 +570,6 @@ def chunk_oracle(case, recs):
                     ok = False
                 if ops[x][0] == "for" and (ops[x][1] < 0 or aft != b4 + ops[x][1]):
                     ok = False
-                if ops[x][0] == "next" and not recs[x][1]["log"] and aft != b4:
-                    pass
             if abm and T % S:
                 ok = False
         if ok:
